@@ -196,10 +196,6 @@ func Run(c Case) core.Result {
 				return res
 			}
 		}
-		if n := s.C.PostCloseWrites(); n > 0 {
-			res.Sig, res.Violation = "C01/write-after-close", fmt.Sprintf("%d write(s) after the connection was closed", n)
-			return res
-		}
 		return res
 	}
 	// accepted: the session must be served - R(3) R(0) S* Z then the continuation per the model
